@@ -899,4 +899,21 @@ mod tests {
         assert!(!votor.slots.contains_key(&Slot::genesis()));
         assert!(!votor.slots.contains_key(&window_start.prev()));
     }
+
+    #[tokio::test]
+    async fn invalid_block_in_last_window() {
+        // the slot of a blockstore event is chosen by the (possibly Byzantine) leader of that slot,
+        // a misbehaviour report for the last leader window must not take down the voting task
+        let (mut votor, _ctx) = build_votor().await;
+        let slot = Slot::new(u64::MAX);
+        votor
+            .handle_blockstore_event(BlockstoreEvent::FirstShred(slot))
+            .await;
+        votor
+            .handle_blockstore_event(BlockstoreEvent::InvalidBlock(slot))
+            .await;
+        for s in slot.slots_in_window() {
+            assert!(votor.has_voted(s));
+        }
+    }
 }
